@@ -88,6 +88,7 @@ func viewsOf(p *load.Program) []*load.Program {
 }
 
 var sweepLimit int
+var benignMore bool
 
 func main() {
 	propID := flag.String("prop", "", "property id (C01..C19)")
@@ -130,6 +131,7 @@ func main() {
 		fmt.Fprintln(os.Stderr, "usage: pgocheck -prop C07 [-tier quick|thorough]")
 		os.Exit(2)
 	}
+	benignMore = *tier == "thorough"
 	os.Exit(run(*propID, *tier, *root, *verif, *patchFile, *onlyRule, *verbose, *noSeeds))
 }
 
@@ -555,6 +557,11 @@ func runBenign(prog *load.Program, root, verif string, selected []*core.Rule, ba
 		}
 	}
 	dirs, _ := filepath.Glob(filepath.Join(verif, "benign", "*"))
+	if benignMore {
+		// the larger corpus (thorough tier): refactorings that were silent from the start, kept as a regression set
+		more, _ := filepath.Glob(filepath.Join(verif, "benign_more", "*"))
+		dirs = append(dirs, more...)
+	}
 	sort.Strings(dirs)
 	// a patch is relevant to this property if it touches a directory in which one of the property's obligations lives
 	// (the others cannot change any verdict here and are judged by the properties they do concern)
